@@ -99,6 +99,12 @@ CLAIMS["C10"] = ("bounded symbolic execution (symx) of the plumbing around the c
          "PKCS#5 padding of every length 1..16 is removed from symbolic plaintext; the per-object key material is key + objid[0:3] + genno[0:2] little-endian (+ sAlT) for symbolic objid/genno; "
          "EncryptMetadata=false bypasses exactly /Type /Metadata streams.",
          "4.C10")
+CLAIMS["C13"] = ("symbolic execution (symx) of the typed accessors, tree/chain walkers and leaf decoders on symbolically chosen damaged values and symbolic bytes; single-fault sweep of a seed document through the real extract_text driven by symbolic choices",
+         "PARTIAL by design (fault sequences over whole real documents are whole-program runs): for every reference graph over 3 objects (self-loops, cycles, dangling) and every value kind each accessor terminates "
+         "within a look-up bound and raises only the library family; number-tree Kids cycles and object-stream containment cycles terminate; rldecode on ALL byte strings of <= 3 bytes, the predictors on every "
+         "geometry incl. 0 and the ASCII/LZW/CCITT filters on corrupt payloads raise only the library family; every single fault (28 sites x 12 kinds) and every truncation of an 8-object seed document keeps "
+         "extract_text inside the family, without hang or recursion exhaustion. Each counterexample is replayed through extract_text on a generated PDF.",
+         "4.C13")
 NA = {}
 def main():
     props = [json.loads(l) for l in open(os.path.join(ROOT, "properties.jsonl"))]
